@@ -15,6 +15,10 @@ type fastcopier interface {
 
 // Repeat ...
 func (e StdEng) Repeat(t Tensor, axis int, repeats ...int) (Tensor, error) {
+	// the copy loops walk the raw storage: a view or a lazily transposed tensor has to be materialized first
+	if v, ok := t.(View); ok && v.IsMaterializable() {
+		t = v.Materialize()
+	}
 	switch tt := t.(type) {
 	case DenseTensor:
 		newShape, newRepeats, newAxis, size, err := e.denseRepeatCheck(t, axis, repeats)
@@ -30,6 +34,9 @@ func (e StdEng) Repeat(t Tensor, axis int, repeats ...int) (Tensor, error) {
 
 // RepeatReuse is like Repeat, but with a provided reuse Tensor. The reuseTensor must be of the same type as the input t.
 func (e StdEng) RepeatReuse(t Tensor, reuse Tensor, axis int, repeats ...int) (Tensor, error) {
+	if v, ok := t.(View); ok && v.IsMaterializable() {
+		t = v.Materialize()
+	}
 	switch tt := t.(type) {
 	case DenseTensor:
 		newShape, newRepeats, newAxis, size, err := e.denseRepeatCheck(t, axis, repeats)
